@@ -53,11 +53,25 @@ def make_model_hashes():
         def __iter__(self):
             return iter(self.rows)
 
+    def _actor():
+        return getattr(CUR.inner, "actor", 0) if CUR is not None and hasattr(CUR, "inner") else 0
+
     class _Con:
-        def __init__(self, table):
-            self.table = table
+        """one connection per thread of control, as diskcache keeps them (sqlite3 refuses use from another thread)"""
+
+        def __init__(self, owner_obj, owner):
+            self.o = owner_obj
+            self.table = owner_obj.table
+            self.owner = owner
+
+        def _affinity(self):
+            if self.owner != _actor():
+                import sqlite3
+
+                raise sqlite3.ProgrammingError("SQLite objects created in a thread can only be used in that same thread")
 
         def executemany(self, query, items):
+            self._affinity()
             if "INSERT" not in query:
                 raise HarnessGap(f"unmodelled SQL: {query}")
             items = list(items)
@@ -66,24 +80,15 @@ def make_model_hashes():
                 for k, v in items:
                     self.table[k] = v
 
-    class ModelHashes(HashesCache):
-        def __init__(self):  # no diskcache / sqlite
-            self.table = {}
-            self._con_ = _Con(self.table)
-            self.sql_log = []
-
-        @property
-        def _con(self):
-            return self._con_
-
-        def _sql(self, query, params=()):
-            self.sql_log.append((query.split(" FROM")[0][:40], len(params)))
+        def execute(self, query, params=()):
+            self._affinity()
+            self.o.sql_log.append((query.split(" FROM")[0][:40], len(params)))
             if query.startswith("SELECT EXISTS"):
                 return _Cur([(1 if self.table else 0,)])
             if query.startswith("SELECT key, value FROM Cache WHERE key IN"):
                 if query.count("?") != len(params):
                     raise HarnessGap("SQL parameter count mismatch")
-                lim = getattr(self, "SQLITE_LIMIT", 999)
+                lim = getattr(self.o, "SQLITE_LIMIT", 999)
                 if len(params) > lim:
                     import sqlite3
 
@@ -93,6 +98,23 @@ def make_model_hashes():
                 (k,) = params
                 return _Cur([(self.table[k],)] if k in self.table else [])
             raise HarnessGap(f"unmodelled SQL: {query}")
+
+    class ModelHashes(HashesCache):
+        def __init__(self):  # no diskcache / sqlite
+            self.table = {}
+            self._cons = {}
+            self.sql_log = []
+
+        @property
+        def _con(self):  # diskcache: thread-local connection
+            a = _actor()
+            if a not in self._cons:
+                self._cons[a] = _Con(self, a)
+            return self._cons[a]
+
+        @property
+        def _sql(self):  # diskcache: `return self._con.execute`
+            return self._con.execute
 
         @contextlib.contextmanager
         def transact(self, retry=False):
